@@ -897,6 +897,30 @@ Proof.
   destruct (S1 C) as [-> O]. eauto.
 Qed.
 
+(* a call compiled before its function exists (placeholder) passes its arguments once the function exists:
+   compile the form while g is unknown, define g, evaluate the compiled form = S with g's definition *)
+Lemma compiled_unknown_guarded : forall st e g ps body, Inv st -> slookup g (funcs st) = None ->
+  g_defun (compile_slot st e) g ps body = true.
+Proof.
+  intros st e g ps body I F. pose proof (compile_slot_cgood e st I) as C. unfold g_defun.
+  destruct (cg_new _ _ C g F) as [N|(p & l & F1 & L1 & _)].
+  - rewrite N. reflexivity.
+  - rewrite F1, L1, Nat.eqb_refl. reflexivity.
+Qed.
+Theorem forward_reference : forall n st ft en e g ps body rS oS, Inv st -> Rel st ft ->
+  slookup g (funcs st) = None ->
+  evalS n ((g, (ps, body)) :: ft) en (out st) e = (rS, oS) -> comparable rS = true ->
+  exists st2, evalM n (defunM (compile_slot st e) g ps body) en e = (rS, st2) /\ out st2 = oS.
+Proof.
+  intros n st ft en e g ps body rS oS I R F E C.
+  pose proof (compile_slot_cgood e st I) as CG.
+  destruct (cgood_rel _ _ ft (compile_slot_cgood e st) I R) as [I1 R1].
+  destruct (defunM_step _ ft g ps body I1 R1 (compiled_unknown_guarded st e g ps body I F)) as (I2 & R2 & O2).
+  rewrite <- (cg_out _ _ CG), <- O2 in E.
+  destruct (evalM_sim _ n _ en e rS oS I2 R2 E) as (rM & st2 & EM & [S1 _]).
+  destruct (S1 C) as [-> O]. eauto.
+Qed.
+
 (* ---- S depends on the table only through lookups; definition order of distinct names is irrelevant -- *)
 Lemma eval_argsS_ext : forall ev ev', (forall en o e, ev en o e = ev' en o e) ->
   forall args en o, eval_argsS ev en o args = eval_argsS ev' en o args.
